@@ -370,6 +370,25 @@ func parseRule(node *yaml.Node, offsetLine, offsetColumn int, contentLines []str
 		part *yaml.Node
 		key  string
 	}{
+		{key: recordKey, part: recordNode},
+		{key: alertKey, part: alertNode},
+	} {
+		// Explicit YAML null (~, null) decodes to an empty string in Prometheus.
+		if entry.part != nil && entry.part.Kind == yaml.ScalarNode && entry.part.ShortTag() == nullTag && entry.part.Value != "" {
+			return Rule{
+				Lines: lines,
+				Error: ParseError{
+					Line: entry.part.Line + offsetLine,
+					Err:  fmt.Errorf("%s value cannot be empty", entry.key),
+				},
+			}, false
+		}
+	}
+
+	for _, entry := range []struct {
+		part *yaml.Node
+		key  string
+	}{
 		{key: labelsKey, part: labelsNode},
 		{key: annotationsKey, part: annotationsNode},
 	} {
